@@ -3284,6 +3284,50 @@ fn main() {
             db.compact_range(None..None);
             println!("tables_after_release={:?}", v::table_numbers(&o));
         }
+        // pinned_middle_version : three iterators pin three successive versions (each holding a table no other pinned version and not
+        // the current version refers to); flushes and compactions (with their obsolete-file sweeps) follow; every pinned table must
+        // stay on disk and every iterator must still show its own state
+        "pinned_middle_version" => {
+            use raindb::{RainDbIterator, ReadOptions, WriteOptions};
+            let mut o = raindb::DbOptions::with_memory_env();
+            o.db_path = "db".to_string();
+            o.create_if_missing = true;
+            let db = raindb::DB::open(o.clone()).expect("open");
+            let mut its = vec![];
+            let mut pinned = vec![];
+            for round in 0..3u8 {
+                db.put(WriteOptions::default(), b"a".to_vec(), vec![b'1' + round]).unwrap();
+                let _ = db.flush_for_verif();
+                db.compact_range(None..None);
+                pinned.push(*v::table_numbers(&o).iter().max().expect("a table"));
+                its.push(db.new_iterator(ReadOptions::default()).unwrap());
+            }
+            for round in 0..3 {
+                db.put(WriteOptions::default(), format!("k{}", round).into_bytes(), b"x".to_vec()).unwrap();
+                db.put(WriteOptions::default(), b"a".to_vec(), b"9".to_vec()).unwrap();
+                let _ = db.flush_for_verif();
+                db.compact_range(None..None);
+            }
+            let on_disk = v::table_numbers(&o);
+            println!("pinned_tables={:?}", pinned);
+            println!("tables_on_disk={:?}", on_disk);
+            println!("pinned_tables_on_disk={}", pinned.iter().all(|p| on_disk.contains(p)));
+            let mut views = vec![];
+            let mut ok = true;
+            for (i, it) in its.iter_mut().enumerate() {
+                let mut view = vec![];
+                let _ = it.seek_to_first();
+                while it.is_valid() {
+                    let (k, val) = it.current().unwrap();
+                    view.push(format!("{}={}", String::from_utf8_lossy(k), String::from_utf8_lossy(val)));
+                    if it.next().is_none() { break; }
+                }
+                if view != vec![format!("a={}", (b'1' + i as u8) as char)] { ok = false; }
+                views.push(view.join(","));
+            }
+            println!("views={}", views.join("|"));
+            println!("views_ok={}", ok);
+        }
         // manifest_codec : edits of trivial moves (file n deleted at level L, added at level L + 1) and a mixed edit are encoded
         // and decoded by the real codec
         "manifest_codec" => {
